@@ -50,7 +50,12 @@ macro_rules! from_feel_number_into {
     impl TryFrom<&FeelNumber> for $l {
       type Error = DmntkError;
       fn try_from(value: &FeelNumber) -> Result<Self, Self::Error> {
-        return value.to_string().parse::<$l>().map_err(|_| err_number_conversion_failed());
+        // only integral values convert; the text of the truncated value has no fraction digits (1.0 converts as 1)
+        let integral = value.trunc();
+        if integral != *value {
+          return Err(err_number_conversion_failed());
+        }
+        return integral.to_string().parse::<$l>().map_err(|_| err_number_conversion_failed());
       }
     }
   };
